@@ -71,6 +71,21 @@ PlanDivisions(t) ==
     ELSE IF t.must_know /\ p.div # t.case.divs THEN "Divisions.Value"
     ELSE "ok"
 
+(* multi-file fused reads (FusedIO): the buckets are the selected partitions, in order, cut into consecutive runs; the fused
+   divisions are the reader's divisions at the first partition of every bucket, closed by the division AFTER the last
+   fused partition (spec/Parquet.tla FusedDivs, rule "division") *)
+FlatB(f) == FlattenSeq(f.buckets)
+FusedOK(f) ==
+    IF FlatB(f) # f.sel THEN "Fused.Buckets"
+    ELSE IF \E i \in DOMAIN f.buckets : f.buckets[i] = <<>> THEN "Fused.Buckets"
+    ELSE IF ~f.known THEN "ok"
+    ELSE IF Len(f.div) # Len(f.buckets) + 1 THEN "Fused.Divisions"
+    ELSE IF \E i \in DOMAIN f.buckets : f.div[i] # f.inner_div[f.buckets[i][1] + 1] THEN "Fused.Divisions"
+    ELSE IF f.div[Len(f.div)] # f.inner_div[f.sel[Len(f.sel)] + 2] THEN "Fused.Divisions"
+    ELSE "ok"
+RECURSIVE FusedAll(_, _)
+FusedAll(fs, i) == IF i > Len(fs) THEN "ok" ELSE IF FusedOK(fs[i]) # "ok" THEN FusedOK(fs[i]) ELSE FusedAll(fs, i + 1)
+
 (* overwriting the dataset the query still reads is refused, and the dataset is intact afterwards *)
 Guard(t) == IF ~t.guard.tried THEN "ok"
             ELSE IF ~t.guard.refused THEN "OverwriteRefused"
@@ -82,7 +97,7 @@ Join(a, b) == IF a = "ok" THEN b ELSE IF b = "ok" THEN a ELSE a \o ";" \o b
 Verdict(t) ==
     IF ~t.inmem.ok THEN (IF t.readback.ok THEN "ok" ELSE RoundTrip(t))          \* the query cannot be executed in memory either: outside the property
     ELSE LET b == BadObs(t, 1, "") IN
-         Join(Join(RoundTrip(t), IF b = "" THEN "ok" ELSE b), Join(PlanDivisions(t), Guard(t)))
+         Join(Join(RoundTrip(t), IF b = "" THEN "ok" ELSE b), Join(Join(PlanDivisions(t), IF t.plan.ok THEN FusedAll(t.plan.fused, 1) ELSE "ok"), Guard(t)))
 
 VARIABLES n, bad
 Init == n = 1 /\ bad = 0
